@@ -105,15 +105,59 @@ def tagging_rng():
 
 
 # ----------------------------------------------------------------------------- building and running cases
-def measurement(c, arr, lazy):
-    import dask.array as da
-    from abtem.core.axes import ScanAxis
-    from abtem.measurements import DiffractionPatterns, Images
+# measurement classes by number of base axes; the sampling values are dyadic so that `_area_per_pixel * dose_per_area` is exact
+CLASSES = {"Images": 2, "DiffractionPatterns": 2, "PolarMeasurements": 2, "RealSpaceLineProfiles": 1, "ReciprocalSpaceLineProfiles": 1,
+           "MeasurementsEnsemble": 0}
+SCAN_SAMPLING = 0.5
 
-    a = da.from_array(arr, chunks=(tuple(c["chunks"]), (arr.shape[1],), (arr.shape[2],))) if lazy else arr
-    if c.get("cls", "Images") == "Images":
-        return Images(a, sampling=0.25, ensemble_axes_metadata=[ScanAxis(sampling=0.5)])
-    return DiffractionPatterns(a, sampling=0.05, ensemble_axes_metadata=[ScanAxis(sampling=0.5)], metadata={"energy": 100e3})
+
+def measurement(c, arr, lazy, two_scan_axes=False):
+    import dask.array as da
+    import abtem.measurements as M
+    from abtem.core.axes import ScanAxis
+
+    cls = c.get("cls", "Images")
+    ens = [ScanAxis(sampling=SCAN_SAMPLING)]
+    lead = ()
+    if two_scan_axes:  # (1, n, ...) array with two scan axes, as dose_per_area of diffraction patterns / polar measurements requires
+        arr = arr[None]
+        lead = ((1,),)
+        ens = [ScanAxis(sampling=SCAN_SAMPLING), ScanAxis(sampling=SCAN_SAMPLING)]
+    a = da.from_array(arr, chunks=lead + (tuple(c["chunks"]),) + tuple((k,) for k in arr.shape[len(lead) + 1:])) if lazy else arr
+    if cls == "Images":
+        return M.Images(a, sampling=0.25, ensemble_axes_metadata=ens)
+    if cls == "DiffractionPatterns":
+        return M.DiffractionPatterns(a, sampling=0.0625, ensemble_axes_metadata=ens, metadata={"energy": 100e3})
+    if cls == "PolarMeasurements":
+        return M.PolarMeasurements(a, radial_sampling=1.0, azimuthal_sampling=0.5, radial_offset=0.0, azimuthal_offset=0.0, ensemble_axes_metadata=ens)
+    if cls == "RealSpaceLineProfiles":
+        return M.RealSpaceLineProfiles(a, sampling=0.25, ensemble_axes_metadata=ens)
+    if cls == "ReciprocalSpaceLineProfiles":
+        return M.ReciprocalSpaceLineProfiles(a, sampling=0.0625, ensemble_axes_metadata=ens)
+    if cls == "MeasurementsEnsemble":
+        return M.MeasurementsEnsemble(a, ensemble_axes_metadata=ens)
+    raise ValueError(cls)
+
+
+def indexed_patterns(lazy):
+    import dask.array as da
+    import abtem.measurements as M
+    from abtem.core.axes import ScanAxis
+
+    a = np.full((3, 4), 50.0, np.float32)
+    a = da.from_array(a, chunks=(1, 4)) if lazy else a
+    return M.IndexedDiffractionPatterns(a, miller_indices=np.array([[0, 0, 0], [1, 0, 0], [0, 1, 0], [1, 1, 0]]), reciprocal_lattice_vectors=np.eye(3),
+                                        ensemble_axes_metadata=[ScanAxis(sampling=.5)], metadata={"energy": 1e5})
+
+
+def area_per_pixel(c):
+    """independent definition of the area a dose per area refers to: the pixel area of an image, the scan-step area of a 4D data set"""
+    cls = c.get("cls", "Images")
+    if cls == "Images":
+        return 0.25 * 0.25
+    if cls in ("DiffractionPatterns", "PolarMeasurements"):
+        return SCAN_SAMPLING * SCAN_SAMPLING
+    return None
 
 
 def run_noise(c, arr, lazy):
@@ -124,8 +168,11 @@ def run_noise(c, arr, lazy):
     dose = c["dose"] if isinstance(c["dose"], list) else float(c["dose"])
     try:
         with abtem.config.set({"dask.chunk-size": c.get("chunk_size", "128 MB")}), dask.config.set(scheduler="synchronous"):
-            m = measurement(c, arr, lazy)
-            r = m.poisson_noise(total_dose=dose, samples=c["samples"], seed=c["seed"])
+            m = measurement(c, arr, lazy, two_scan_axes=c.get("two_scan_axes", False))
+            if c.get("per_area"):
+                r = m.poisson_noise(dose_per_area=dose, samples=c["samples"], seed=c["seed"])
+            else:
+                r = m.poisson_noise(total_dose=dose, samples=c["samples"], seed=c["seed"])
             chunks = None
             if lazy:
                 chunks = [list(x) for x in r.array.chunks]
@@ -141,29 +188,31 @@ def predict_lazy(c, arr, chunks):
     Returns None when the seeds are not known to the caller (seed=None)."""
     from abtem.inelastic.phonons import validate_seeds
 
-    if c["seed"] is None:
+    if c["seed"] is None or c.get("two_scan_axes"):
         return None
+    scale = area_per_pixel(c) if c.get("per_area") else 1.0
+    c = dict(c, dose=[d * scale for d in c["dose"]] if isinstance(c["dose"], list) else c["dose"] * scale)
     doses = [np.float32(d) for d in c["dose"]] if isinstance(c["dose"], list) else None
     seeds = [int(v) for v in validate_seeds(c["seed"], c["samples"])] if c["samples"] > 1 else None
     ch = [list(x) for x in chunks]
     cd = ch.pop(0) if doses is not None else [1]
     cs = ch.pop(0) if seeds is not None else [1]
     ci = ch.pop(0)
-    n, h, w = arr.shape
-    out = np.zeros(((len(doses),) if doses is not None else ()) + ((len(seeds),) if seeds is not None else ()) + (n, h, w), dtype=np.float32)
+    n, base = arr.shape[0], arr.shape[1:]
+    out = np.zeros(((len(doses),) if doses is not None else ()) + ((len(seeds),) if seeds is not None else ()) + (n,) + base, dtype=np.float32)
     d0 = 0
     for a, nd in enumerate(cd):
         s0 = 0
         for b, ns in enumerate(cs):
             i0 = 0
             for k, ni in enumerate(ci):
-                bid = ([a] if doses is not None else []) + ([b] if seeds is not None else []) + [k, 0, 0]
+                bid = ([a] if doses is not None else []) + ([b] if seeds is not None else []) + [k] + [0] * len(base)
                 spawn = tuple(bid) if any(bid) else ()
                 blk_seed = sum(seeds[s0:s0 + ns]) if seeds is not None else c["seed"]
                 rs = np.random.RandomState(int(np.random.default_rng(np.random.SeedSequence(blk_seed, spawn_key=spawn)).integers(np.iinfo(np.int32).max)))
                 sub = arr[i0:i0 + ni].astype(np.float32)
                 if seeds is not None:
-                    sub = np.tile(sub[None], (ns, 1, 1, 1))
+                    sub = np.tile(sub[None], (ns,) + (1,) * sub.ndim)
                 if doses is not None:
                     sub = sub[None] * np.array(doses[d0:d0 + nd], dtype=np.float32).reshape((-1,) + (1,) * sub.ndim)
                 else:
@@ -177,21 +226,30 @@ def predict_lazy(c, arr, chunks):
     return out
 
 
+# dose_per_area: images have a pixel area; diffraction patterns / polar measurements need two scan axes (documented ValueError with
+# fewer); line profiles and bare ensembles have no area (RuntimeError)
+PER_AREA_ERROR = {"DiffractionPatterns": "value_error", "PolarMeasurements": "value_error", "RealSpaceLineProfiles": "runtime_error",
+                  "ReciprocalSpaceLineProfiles": "runtime_error", "MeasurementsEnsemble": "runtime_error"}
+
+
 def case_array(c):
-    n, h, w = c["shape"]
-    return np.array(c["values"], dtype=np.float32).reshape(n, h, w)
+    return np.array(c["values"], dtype=np.float32).reshape(c["shape"])
 
 
 def gen_case(ctx: Ctx):
     rng = ctx.rng
-    n, h, w = rng.randint(1, 5), rng.randint(1, 3), rng.randint(1, 3)
+    cls = rng.choice(list(CLASSES))
+    n = rng.randint(1, 5)
+    base = [rng.randint(1, 3) for _ in range(CLASSES[cls])]
     lazy = rng.random() < 0.7
     cuts = sorted(rng.sample(range(1, n), rng.randint(0, n - 1))) if n > 1 else []
     chunks = [b - a for a, b in zip([0] + cuts, cuts + [n])]
-    c = dict(shape=[n, h, w], values=[dyadic(rng, -1, 6, 2) for _ in range(n * h * w)], lazy=lazy, chunks=chunks if lazy else [n],
+    c = dict(shape=[n] + base, values=[dyadic(rng, -1, 6, 2) for _ in range(n * int(np.prod(base)))], lazy=lazy, chunks=chunks if lazy else [n],
              dose=rng.choice([0.5, 1.0, 2.0, 4.0, 0.0, [1.0, 2.0], [0.5, 1.0, 4.0], [2.0], [0.0, 1.0]]),
              seed=pick_seed(rng, 60), samples=rng.choice([1, 1, 2, 3]),
-             chunk_size=rng.choice(["128 MB", "128 MB", "64 B", "160 B"]) if lazy else "128 MB", cls=rng.choice(["Images", "DiffractionPatterns"]))
+             chunk_size=rng.choice(["128 MB", "128 MB", "64 B", "160 B"]) if lazy else "128 MB", cls=cls)
+    # a dose per area: total dose = pixel area x dose for images; the other classes need two scan axes (one here -> ValueError / NotImplemented)
+    c["per_area"] = rng.random() < 0.25
     return c
 
 
@@ -201,8 +259,10 @@ def boundary_cases():
     for seed in BOUNDARY_SEEDS:
         for samples in (1, 2):
             for lazy, chunks in ((False, [2]), (True, [2]), (True, [1, 1])):
-                out.append(dict(shape=[2, 1, 2], values=[0.5, 1.0, 3.0, -1.0], lazy=lazy, chunks=chunks, dose=2.0, seed=seed, samples=samples,
-                                chunk_size="128 MB", cls="Images"))
+                for cls, shape in (("Images", [2, 1, 2]), ("MeasurementsEnsemble", [2]), ("RealSpaceLineProfiles", [2, 2])):
+                    vals = [0.5, 1.0, 3.0, -1.0][:int(np.prod(shape))]
+                    out.append(dict(shape=shape, values=vals, lazy=lazy, chunks=chunks, dose=2.0, seed=seed, samples=samples,
+                                    chunk_size="128 MB", cls=cls))
     return out
 
 
@@ -212,9 +272,10 @@ def model_line(c, chunks):
         sd = "d:" + list_s(fake_seed_list(c["seed"], c["samples"]))
     else:
         sd = "none" if c["seed"] is None else f"s:{c['seed']}"
-    ds = "d:" + list_s(c["dose"], rat_s) if isinstance(c["dose"], list) else "s:" + rat_s(c["dose"])
-    n, h, w = c["shape"]
-    items = [c["values"][i * h * w:(i + 1) * h * w] for i in range(n)]
+    scale = Fraction(area_per_pixel(c)) if c.get("per_area") else Fraction(1)  # only reached for classes with a pixel area (Images)
+    ds = "d:" + list_s([Fraction(d) * scale for d in c["dose"]], rat_s) if isinstance(c["dose"], list) else "s:" + rat_s(Fraction(c["dose"]) * scale)
+    n, pix = c["shape"][0], int(np.prod(c["shape"][1:]))
+    items = [c["values"][i * pix:(i + 1) * pix] for i in range(n)]
     if chunks is None:
         cd, cs, ci, mode = [len(c["dose"])] if isinstance(c["dose"], list) else [1], [c["samples"]], [n], "eager"
     else:
@@ -222,7 +283,7 @@ def model_line(c, chunks):
         cd = ch.pop(0) if isinstance(c["dose"], list) else [1]
         cs = ch.pop(0) if c["samples"] > 1 else [1]
         ci, mode = ch.pop(0), "lazy"
-    return f"noise {mode} {sd} {ds} {list_s(cd)} {list_s(cs)} {list_s(ci)} 2 {listlist_s(items, rat_s)}"
+    return f"noiseon {mode} {c['cls']} {sd} {ds} {list_s(cd)} {list_s(cs)} {list_s(ci)} {listlist_s(items, rat_s)}"
 
 
 class C31(Property):
@@ -252,7 +313,13 @@ class C31(Property):
             for c in boundary_cases() + [gen_case(ctx) for _ in range(ctx.n(250, 5000))]:
                 _State.entropy = 0
                 got = run_noise(c, case_array(c), c["lazy"])
+                if c.get("per_area") and c["cls"] in PER_AREA_ERROR:
+                    ctx.agree("dose_per_area on a measurement without (enough) area information is rejected", c,
+                              ["err", PER_AREA_ERROR[c["cls"]]], got[:2] if got[0] == "err" else ["ok"])
+                    ctx.count(f"per-area-rejected:{c['cls']}")
+                    continue
                 chunks = got[2] if got[0] == "ok" else None
+                refusal = False
                 if got[0] == "err" and c["lazy"]:
                     # chunks of the graph are needed for the model even when compute() raises: rebuild lazily without computing
                     import abtem
@@ -262,19 +329,34 @@ class C31(Property):
                             r = measurement(c, case_array(c), True).poisson_noise(
                                 total_dose=c["dose"] if isinstance(c["dose"], list) else float(c["dose"]), samples=c["samples"], seed=c["seed"])
                             chunks = [list(x) for x in r.array.chunks]
-                        except Exception:  # noqa
+                        except Exception as e:  # noqa
                             chunks = None
+                            refusal = "cannot be automatically chunked" in str(e)
                 if c["lazy"] and chunks is None:
+                    if refusal:  # abTEM's own, explicit refusal: the fixed array chunks exceed the (deliberately tiny) chunk-size limit
+                        ctx.count("skipped:chunk-size-limit-below-one-block")
+                    else:
+                        ctx.agree("lazy noise graph can be built", c, "ok", f"err {got[1]}")
                     continue
                 nblocks = 1 if not c["lazy"] else int(np.prod([len(x) for x in chunks]))
                 if c["seed"] is None and c["samples"] == 1 and nblocks > 1:
                     ctx.count("skipped:unseeded-multiblock")
                     continue
                 cases.append(c); impls.append(got); lines.append(model_line(c, chunks if c["lazy"] else None))
-        bad = ["noise eager s:1 s:1 1 1 1 2", "noise maybe s:1 s:1 1 1 1 2 1", "noise eager x:1 s:1 1 1 1 2 1", "noise"]
-        outs = drv.query(lines + bad)
+        bad = ["noise eager s:1 s:1 1 1 1 2", "noise maybe s:1 s:1 1 1 1 2 1", "noise eager x:1 s:1 1 1 1 2 1", "noise", "class Foo"]
+        classes = list(CLASSES) + ["IndexedDiffractionPatterns"]
+        outs = drv.query(lines + bad + [f"class {k}" for k in classes])
         for l, o in zip(bad, outs[len(lines):]):
             ctx.agree("driver rejects malformed request", l, o, "bad-op")
+        for k, o in zip(classes, outs[len(lines) + len(bad):]):
+            # class table of the model vs the real classes: number of base axes, and whether a transform result can be rebuilt
+            m = indexed_patterns(False) if k == "IndexedDiffractionPatterns" else measurement(dict(cls=k, chunks=[2]), np.ones([2] + [2] * CLASSES[k], dtype=np.float32), False)
+            try:
+                m.poisson_noise(total_dose=1.0, seed=1)
+                works = True
+            except TypeError:
+                works = False
+            ctx.agree("measurement class table (base axes, rebuildable)", k, o.split()[1:], [str(len(m.base_shape)), "T" if works else "F"])
         for c, got, out in zip(cases, impls, outs):
             t = out.split()
             if t[0] == "err":
@@ -287,6 +369,7 @@ class C31(Property):
             if model[0] == "ok" and int(np.prod(model[1])) != len(model[2]):
                 model = ["ok-but-inconsistent-shape"] + model[1:]
             ctx.agree("NoiseTransform (eager / lazy blockwise) with tagging RNG", c, model, impl)
+            ctx.count(f"class:{c['cls']}:{'lazy' if c['lazy'] else 'eager'}{':per-area' if c.get('per_area') else ''}")
             ctx.count(f"{'lazy' if c['lazy'] else 'eager'}:{impl[0] if impl[0] == 'ok' else impl[1]}:seed={'int' if c['seed'] is not None else 'none'}:"
                       f"samples={c['samples']}:dose={'list' if isinstance(c['dose'], list) else 'scalar'}")
             ctx.case(c, nontrivial=True)
@@ -295,19 +378,56 @@ class C31(Property):
     # ------------------------------------------------------------------ conformance (real RNG)
     def oracle(self, ctx: Ctx, c):
         kind = c["kind"]
-        n, h, w = c["shape"]
-        arr = np.full((n, h, w), c["signal"], dtype=np.float32)
+        if kind == "indexed":
+            import abtem.measurements as M
+
+            for lazy in (False, True):
+                try:
+                    r = indexed_patterns(lazy).poisson_noise(total_dose=1.0, seed=5)
+                    r = r.compute() if lazy else r
+                    a = np.asarray(r.array)
+                    if a.min() < 0 or not np.array_equal(a, np.round(a)):
+                        ctx.violation("indexed-diffraction-patterns-counts-invalid", c, {"lazy": lazy})
+                except Exception as e:  # noqa
+                    # the recorded defect, re-derived independently: the class cannot rebuild itself from (array, axes, metadata)
+                    stub = False
+                    try:
+                        M.IndexedDiffractionPatterns.from_array_and_metadata(np.zeros((1, 4)), [], {})
+                    except TypeError:
+                        stub = True
+                    except Exception:  # noqa
+                        stub = False
+                    if err_kind(e) == "type_error" and stub and "from_array_and_metadata" in str(e):
+                        ctx.violation("indexed-diffraction-patterns-cannot-be-rebuilt-by-transforms", c, {"lazy": lazy, "raised": str(e)[:120]})
+                    else:
+                        ctx.violation("indexed-diffraction-patterns-noise-raises", c, {"lazy": lazy, "raised": f"{type(e).__name__}: {e}"[:160]})
+            return
+        if kind == "dose-args":
+            m = measurement(c, np.ones(c["shape"], dtype=np.float32), False)
+            for kw, want in (({"dose_per_area": 4.0, "total_dose": 4.0}, "runtime_error"), ({}, None)):
+                try:
+                    m.poisson_noise(seed=1, **kw)
+                    ctx.violation("poisson-noise-accepts-ambiguous-or-missing-dose", c, {"arguments": kw})
+                except Exception as e:  # noqa
+                    few_axes = c["cls"] in ("DiffractionPatterns", "PolarMeasurements")  # their two-scan-axes guard (ValueError) comes first
+                    if want is not None and err_kind(e) != want and not (few_axes and err_kind(e) == "value_error"):
+                        ctx.violation("poisson-noise-ambiguous-dose-wrong-error", c, {"arguments": kw, "raised": err_kind(e)})
+            return
+        n, pix = c["shape"][0], int(np.prod(c["shape"][1:]))
+        arr = np.full(c["shape"], c["signal"], dtype=np.float32)
         if c.get("negative"):
-            arr[:, 0, 0] = -1.0
+            arr.reshape(n, -1)[:, 0] = -1.0
         base = dict(c)
         e = run_noise(base, arr, False)
         if e[0] != "ok":
-            ctx.violation("eager-noise-raises", c, {"raised": e[1]}); return
+            seq = c.get("per_area") and isinstance(c["dose"], list)
+            ctx.violation("dose-per-area-sequence-raises" if seq and e[1] == "type_error" else "eager-noise-raises", c, {"raised": e[1]}); return
         ea = e[1]
         if kind == "valid":
             if ea.min() < 0 or not np.array_equal(ea, np.round(ea)):
                 ctx.violation("counts-not-nonnegative-integers", c, {"min": float(ea.min())})
-            expect = np.clip(arr.astype(np.float64), 0, None) * (np.array(c["dose"], dtype=np.float64).reshape((-1,) + (1,) * 3) if isinstance(c["dose"], list) else c["dose"])
+            scale = area_per_pixel(c) if c.get("per_area") else 1.0  # independent definition of the area a dose per area refers to
+            expect = np.clip(arr.astype(np.float64), 0, None) * scale * (np.array(c["dose"], dtype=np.float64).reshape((-1,) + (1,) * arr.ndim) if isinstance(c["dose"], list) else c["dose"])
             samples_axis = 1 if c["samples"] > 1 else 0
             obs = ea.astype(np.float64).reshape(((len(c["dose"]),) if isinstance(c["dose"], list) else (1,)) + (c["samples"],) + arr.shape)
             expb = np.broadcast_to(expect.reshape((-1, 1) + arr.shape) if isinstance(c["dose"], list) else expect[None, None], obs.shape)
@@ -315,17 +435,18 @@ class C31(Property):
                 mu = expb[d].mean(); N = obs[d].size
                 if mu == 0 and np.abs(obs[d]).max() != 0:
                     ctx.violation("zero-rate-gives-counts", c, {"dose_index": d, "max_count": float(np.abs(obs[d]).max())})
-                if mu > 0 and abs(obs[d].mean() - mu) > 6.0 * np.sqrt(mu / N):
+                if mu > 0 and not (abs(obs[d].mean() - mu) <= 6.0 * np.sqrt(mu / N)):
                     ctx.violation("mean-count-not-dose-times-signal", c, {"dose_index": d, "observed_mean": float(obs[d].mean()), "expected": float(mu)})
-            if c.get("negative") and np.abs(obs[..., 0, 0]).max() != 0:
+            neg = obs.reshape(obs.shape[:3] + (-1,))[..., 0]
+            if c.get("negative") and np.abs(neg).max() != 0:
                 # a negative intensity is clipped to rate 0, and Poisson(0) is 0 with certainty
-                ctx.violation("negative-intensity-not-clipped-to-zero-counts", c, {"counts_at_negative_pixels": obs[..., 0, 0].reshape(-1)[:8].tolist()})
+                ctx.violation("negative-intensity-not-clipped-to-zero-counts", c, {"counts_at_negative_pixels": neg.reshape(-1)[:8].tolist()})
             e2 = run_noise(base, arr, False)
             if c["seed"] is not None and not np.array_equal(e2[1], ea):
                 ctx.violation("eager-not-reproducible", c, {})
             # distinct members / samples must not share their noise
-            flat = obs.reshape(-1, h * w) if h * w >= 16 else None
-            if flat is not None and len(flat) > 1 and c["signal"] * (c["dose"][0] if isinstance(c["dose"], list) else c["dose"]) >= 1:
+            flat = obs.reshape(-1, pix) if pix >= 16 else None
+            if flat is not None and len(flat) > 1 and float(expect.max()) >= 1 and c["signal"] * (c["dose"][0] if isinstance(c["dose"], list) else c["dose"]) >= 1:
                 same = [(i, j) for i in range(len(flat)) for j in range(i + 1, len(flat)) if np.array_equal(flat[i], flat[j])]
                 if same:
                     ctx.violation("eager-members-identical-noise", c, {"pairs": same[:5]})
@@ -352,9 +473,9 @@ class C31(Property):
                     ctx.violation("seeded-lazy-single-block-differs-from-eager" if nblocks == 1 else "seeded-lazy-multiblock-differs-from-eager",
                                   c, {"blocks": nblocks, "chunks": l[2], "differing_entries": int((la != ea).sum())})
             # independence across array blocks: blocks with identical signal must not receive identical noise
-            item_axis = la.ndim - 3
+            item_axis = la.ndim - len(c["shape"])
             ch = l[2][item_axis]
-            if len(ch) > 1 and len(set(ch)) == 1 and h * w * ch[0] >= 16 and c["signal"] * (c["dose"][0] if isinstance(c["dose"], list) else c["dose"]) >= 1:
+            if len(ch) > 1 and len(set(ch)) == 1 and pix * ch[0] >= 16 and c["signal"] * (c["dose"][0] if isinstance(c["dose"], list) else c["dose"]) >= 1:
                 blocks = np.split(la, np.cumsum(ch)[:-1], axis=item_axis)
                 if all(np.array_equal(blocks[0], b) for b in blocks[1:]):
                     # a transform is seeded when the user gave a seed or when a sample axis exists (its seeds are drawn once, at construction)
@@ -369,6 +490,21 @@ class C31(Property):
                 out.append(dict(kind="valid", shape=[2, 8, 8], signal=1.0, dose=16.0, seed=seed, samples=samples, negative=False, cls="Images"))
                 out.append(dict(kind="lazy", shape=[2, 8, 8], signal=1.0, dose=16.0, seed=seed, samples=samples, chunks=[2], chunk_size="128 MB",
                                 cls="Images"))
+        out.append(dict(kind="indexed"))
+        for cls, bd in CLASSES.items():  # every measurement class, eager and lazy (one and two blocks), and the dose-argument errors
+            shape = [4] + {0: [], 1: [64], 2: [8, 8]}[bd]
+            out.append(dict(kind="dose-args", shape=shape, cls=cls))
+            out.append(dict(kind="valid", shape=shape, signal=2.0, dose=16.0, seed=rng.randint(0, 99), samples=rng.choice([1, 2]), negative=bd > 0, cls=cls))
+            for chunks in ([4], [2, 2]):
+                out.append(dict(kind="lazy", shape=shape, signal=2.0, dose=16.0, seed=rng.randint(0, 99), samples=1, chunks=chunks, chunk_size="128 MB", cls=cls))
+        # dose per area: pixel area of an image, scan-step area of 4D data with two scan axes
+        # a sequence of doses per area (documented: "a single value or a sequence of values"): one Dose-axis entry per value
+        out.append(dict(kind="valid", shape=[4, 8, 8], signal=3.0, dose=[64.0, 256.0], per_area=True, seed=rng.randint(0, 99), samples=1, negative=False,
+                        cls="Images"))
+        for cls, two in (("Images", False), ("Images", True), ("DiffractionPatterns", True), ("PolarMeasurements", True)):
+            for lazy_chunks in (None, [2, 2]):
+                out.append(dict(kind="valid" if lazy_chunks is None else "lazy", shape=[4, 8, 8], signal=3.0, dose=rng.choice([64.0, 256.0]), per_area=True,
+                                two_scan_axes=two, seed=rng.randint(0, 99), samples=1, negative=False, cls=cls, chunks=lazy_chunks or [4], chunk_size="128 MB"))
         for _ in range(ctx.n(30, 600)):
             out.append(dict(kind="valid", shape=[rng.randint(1, 4), rng.choice([8, 16]), rng.choice([8, 16])], signal=rng.choice([0.25, 1.0, 3.0]),
                             dose=rng.choice([4.0, 16.0, 50.0, 0.0, [4.0, 32.0], [0.0, 16.0]]), seed=pick_seed(rng, 10**6),
@@ -385,7 +521,7 @@ class C31(Property):
     def conformance(self, ctx: Ctx):
         for c in self.gen(ctx):
             self.oracle(ctx, c)
-            ctx.case(c, nontrivial=True)
+            ctx.case(c, nontrivial=c["kind"] != "indexed")
 
     def replay(self, ctx: Ctx, case):
         self.oracle(ctx, case)
